@@ -6,7 +6,7 @@ from pyvc.engine import Engine
 
 META = _pipeline.meta('C02')
 
-DEDUCTIVE = ['vsg.vhdlFile.classify.comment.classify_single_line_comment', 'vsg.vhdlFile.vhdlFile.vhdlFile.fix_blank_lines', 'vsg.vhdlFile.vhdlFile.vhdlFile.fix_trailing_whitespace', 'vsg.vhdlFile.utils.fix_blank_lines', 'vsg.vhdlFile.utils.fix_trailing_whitespace', 'vsg.rules.token_case.token_case._fix_violation', 'vsg.rules.whitespace_between_tokens.Rule._fix_violation', 'vsg.rules.token_indent.token_indent._fix_violation']
+DEDUCTIVE = ['vsg.vhdlFile.classify.comment.classify_single_line_comment', 'vsg.vhdlFile.utils.remove_trailing_whitespace_and_comments', 'vsg.vhdlFile.utils.remove_leading_whitespace_and_comments', 'vsg.vhdlFile.vhdlFile.vhdlFile.fix_blank_lines', 'vsg.vhdlFile.vhdlFile.vhdlFile.fix_trailing_whitespace', 'vsg.vhdlFile.utils.fix_blank_lines', 'vsg.vhdlFile.utils.fix_trailing_whitespace', 'vsg.rules.token_case.token_case._fix_violation', 'vsg.rules.whitespace_between_tokens.Rule._fix_violation', 'vsg.rules.token_indent.token_indent._fix_violation']
 
 
 def run():
